@@ -463,7 +463,6 @@ func otherReviewed(c *Ctx, rule, fn, what string) (string, bool) {
 	return "", false
 }
 
-
 // typeAssertSafe: a non-comma-ok assertion is fine when the operand's dynamic type is
 // established: it is a MakeInterface of that type, or the result of a sync.Pool Get whose New
 // returns that type (pools are typed by construction in this code base).
@@ -1211,7 +1210,9 @@ func sortedBoolKeys(m map[string]bool) []string {
 }
 
 // sentinelMatcher recognises a helper of the form
-//   func(err error) bool { for _, s := range [...]error{A, B, ...} { if errors.Is(err, s) { return true } }; return false }
+//
+//	func(err error) bool { for _, s := range [...]error{A, B, ...} { if errors.Is(err, s) { return true } }; return false }
+//
 // (or a chain of errors.Is tests joined by ||) and returns the set of sentinels it matches.
 // ok is false when the function has another shape.
 func (c *Ctx) sentinelMatcher(fn *ssa.Function) (map[string]bool, bool) {
